@@ -1,0 +1,5 @@
+//go:build !verif
+
+package sm2ec
+
+func verifGate(string) {}
